@@ -81,6 +81,15 @@ def replicate (n : Nat) (b : Bytes) : Bytes :=
   | 0 => []
   | n + 1 => b ++ replicate n b
 
+/-- what miekg packs for the scripted `WriteMsg` kind: a header with
+`raw[13]` answers `x. 60 IN TXT <255 × fill>` (no compression) -/
+def progMsgBytes (raw : Bytes) : Bytes :=
+  let k := (byteAt raw 13).toNat
+  let fill : UInt8 := UInt8.ofNat (97 + (if raw.length > 14 then (byteAt raw 14).toNat % 26 else 0))
+  let rr : Bytes := [1, 120, 0, 0, 16, 0, 1, 0, 0, 0, 60, 1, 0, 255] ++ List.replicate 255 fill
+  [byteAt raw 0, byteAt raw 1, 128, 0, 0, 0, UInt8.ofNat (k / 256), UInt8.ofNat (k % 256), 0, 0, 0, 0] ++
+    replicate k rr
+
 /-- the scripted handler of harness/c10/script.go -/
 def program : Handler := fun raw e =>
   if raw.length < 14 then .none else
@@ -96,7 +105,7 @@ def program : Handler := fun raw e =>
   | 5 => if e = .inline then .decline else .write reply
   | 6 => .leaseAbandon reply
   | 7 => .writePanic reply
-  | 8 => .writeMsg [byteAt raw 0, byteAt raw 1, 128, UInt8.ofNat ((byteAt raw 13).toNat % 16), 0, 0, 0, 0, 0, 0, 0, 0]
+  | 8 => .writeMsg (progMsgBytes raw)
   | _ => .write reply
 
 /-! ### the UDP job slab -/
@@ -625,6 +634,136 @@ def shareAll (leader : Msg) : List (Nat × Bool) → Nat → List Msg
   | (id, owned) :: t, next =>
     let (m, next') := groupLookupResult true owned leader id next
     m :: shareAll leader t next'
+
+/-! ### job-owned strict-path storage: the context carrier and the edns writer slot
+(`server/strict.go jobCarrier`, `middleware/edns serveWire`) -/
+
+/-- `jobCarrier`: four pin slots (key 0 = free) and a provider hook -/
+structure Carrier where
+  slots : List (Nat × Nat) := [(0, 0), (0, 0), (0, 0), (0, 0)]
+  provider : Bool := false
+  deadline : Nat := 0
+deriving Repr, DecidableEq
+
+def setFirstFree (k v : Nat) : List (Nat × Nat) → Option (List (Nat × Nat))
+  | [] => none
+  | (k', v') :: t => if k' = 0 then some ((k, v) :: t) else (setFirstFree k v t).map ((k', v') :: ·)
+
+/-- `TryPin` -/
+def Carrier.tryPin (c : Carrier) (k v : Nat) : Carrier × Bool :=
+  if k = 0 ∨ v = 0 then (c, false)
+  else if c.slots.any (·.1 == k) then (c, false)
+  else match setFirstFree k v c.slots with
+    | some s => ({ c with slots := s }, true)
+    | none => (c, false)
+
+/-- `Pinned` -/
+def Carrier.pinned (c : Carrier) (k : Nat) : Option Nat :=
+  (c.slots.find? (·.1 == k)).map (·.2)
+
+/-- `TrySetProvider` -/
+def Carrier.trySetProvider (c : Carrier) : Carrier × Bool :=
+  if c.provider then (c, false) else ({ c with provider := true }, true)
+
+/-- `reset(deadline)`: what the engine calls before every strict serve -/
+def Carrier.reset (_ : Carrier) (deadline : Nat) : Carrier :=
+  { slots := [(0, 0), (0, 0), (0, 0), (0, 0)], provider := false, deadline := deadline }
+
+/-- the per-request facts of `edns.ResponseWriter` on the strict path -/
+structure EdnsSlot where
+  bound : Bool := false       -- ResponseWriter / EDNS set
+  size : Nat := 0
+  doBit : Bool := false
+  nsid : Bool := false
+  noedns : Bool := false
+  hasCookie : Bool := false
+  cookie : Nat := 0
+deriving Repr, DecidableEq
+
+structure EdnsReq where
+  hasOpt : Bool
+  doBit : Bool := false
+  nsid : Bool := false
+  cookie : Option Nat := none
+deriving Repr, DecidableEq
+
+/-- `serveWire` on entry: every fact is restated from the request — except the
+cookie, which is only ever SET (when the request carries one) -/
+def EdnsSlot.enter (s : EdnsSlot) (q : EdnsReq) : EdnsSlot :=
+  let s := { s with bound := true, size := if q.hasOpt then 1232 else 512, doBit := q.doBit, nsid := q.nsid,
+                    noedns := !q.hasOpt }
+  match q.cookie with
+  | some c => { s with hasCookie := true, cookie := c }
+  | none => s
+
+/-- the COOKIE option of the reply OPT (`appendOPT`: no OPT at all without EDNS) -/
+def EdnsSlot.replyCookie (s : EdnsSlot) : Option Nat :=
+  if s.noedns then none else if s.hasCookie then some s.cookie else none
+
+/-- the deferred cleanup: `*rw = ResponseWriter{}` -/
+def EdnsSlot.exit (_ : EdnsSlot) : EdnsSlot := {}
+
+def ednsServe (s : EdnsSlot) (q : EdnsReq) : Option Nat × EdnsSlot :=
+  let s1 := s.enter q
+  (s1.replyCookie, s1.exit)
+
+def ednsMany (s : EdnsSlot) : List EdnsReq → List (Option Nat)
+  | [] => []
+  | q :: t => (ednsServe s q).1 :: ednsMany (ednsServe s q).2 t
+
+/-! ### the failover writer (`middleware/failover` `ResponseWriter.WriteMsg`) -/
+
+/-- a reply as far as the client can tell replies apart: transaction id, rcode, content mark -/
+structure FoMsg where
+  id : Nat
+  rcode : Nat
+  mark : Nat
+deriving Repr, DecidableEq
+
+/-- one fallback server's exchange: an error, or a response that arrives under
+the id the exchange was made with -/
+inductive FoOutcome
+  | err
+  | resp (exchangeId rcode mark : Nat)
+deriving Repr, DecidableEq
+
+/-- the loop over the fallback servers; `fr` is the retained failure response -/
+def failoverLoop (m : FoMsg) : List FoOutcome → Option FoMsg → FoMsg
+  | [], fr => fr.getD m
+  | .err :: t, fr => failoverLoop m t fr
+  | .resp _ rc mk :: t, fr =>
+    -- `resp.Id = m.Id` comes first, then the classification (`ClassifyResponse`: SERVFAIL)
+    let r : FoMsg := { id := m.id, rcode := rc, mark := mk }
+    if rc = 2 then failoverLoop m t (if fr.isNone then some r else fr) else r
+
+/-- `WriteMsg(m)`: what reaches the client. `m` is the primary's reply (it
+carries the client's id), `rd` its RD bit. -/
+def failoverWrite (servers : List FoOutcome) (m : FoMsg) (rd : Bool) : FoMsg :=
+  if servers.isEmpty || m.rcode != 2 || !rd then m else failoverLoop m servers none
+
+/-! ### the pipeline's chain pool (`Pipeline.NewChain / PutChain`, `Server.serveMsgBy`, `pipelineQueryer.Query`)
+
+`sync.Pool` as a bag of chain pointers; a request draws one (or a fresh one)
+and returns it exactly once. -/
+
+structure ChainPool where
+  pooled : List Nat := []   -- pointers parked in the pool
+  held : List Nat := []     -- pointers in a running request's hands
+  next : Nat := 0           -- next fresh allocation
+deriving Repr
+
+inductive PoolStep
+  | get                -- NewChain: a parked pointer or a fresh one
+  | put (c : Nat)      -- PutChain by the request that holds c
+deriving Repr
+
+def ChainPool.step (p : ChainPool) : PoolStep → ChainPool
+  | .get => match p.pooled with
+    | c :: t => { p with pooled := t, held := c :: p.held }
+    | [] => { p with held := p.next :: p.held, next := p.next + 1 }
+  | .put c => if p.held.contains c then { p with held := p.held.erase c, pooled := c :: p.pooled } else p
+
+def ChainPool.run (p : ChainPool) (l : List PoolStep) : ChainPool := l.foldl ChainPool.step p
 
 /-! ### DNS-over-QUIC (`doq.Server.handleConnection / handleStream`, `doq.ResponseWriter`)
 
